@@ -53,4 +53,11 @@ def genEvaluate (c : Consts) (w : Array Int) (p : Pos) : Option Int :=
 def genDefaultWeights : Option (Array (Array Int)) :=
   Gen.evalInit #[] Facts.evalDefaultWeights.toArray Facts.evalOverrides6.toArray
 
+/-- `MakeEvaluator(size, nil)(c, p)` regenerated: `&DefaultWeights[size]` of the table the regenerated `init()` builds
+(`none` also when `size` is outside the table: Go's index panic) -/
+def genEvaluateDefault (c : Consts) (p : Pos) : Option Int :=
+  match genDefaultWeights with
+  | none => none
+  | some t => if h : p.cfg.size < t.size then genEvaluate c t[p.cfg.size] p else none
+
 end Tak
